@@ -112,6 +112,7 @@ func main() {
 	verif := flag.String("verif", "", "verif directory (default: parent of the binary's directory)")
 	noEvidence := flag.Bool("no-evidence", false, "do not write evidence/replay files (used for mutant runs)")
 	dump := flag.String("dump", "", "debug: dump origins of calls in function")
+	verbose := flag.Bool("v", false, "print every obligation")
 	flag.Parse()
 	if *verif == "" {
 		exe, _ := os.Executable()
@@ -231,6 +232,11 @@ func main() {
 		fmt.Printf("VIOLATION property=%s replay=%s\n  SELFTEST-MISS %s\n", prop.ID, path, m)
 	}
 
+	if *verbose {
+		for _, o := range merged.Obls {
+			fmt.Printf("  [%s] %s  (%s)  %s\n", o.Status, o.Key, o.Pos, short(o.Detail))
+		}
+	}
 	// summary + evidence
 	perRule := map[string][3]int{}
 	distinct := map[string]bool{}
